@@ -197,8 +197,8 @@ func (g *genState) op(kind string) (Op, bool) {
 		for i := 0; i < n; i++ {
 			it := g.item(q)
 			if inMem(q) {
-				it.ID = "" // batch items get unique IDs (the stream is keyed by them)
-				if !pct(t, "noid", 15) || g.cfg.Kind != "plain" {
+				it.ID = "" // explicit batch item IDs are unique; one item in four has none
+				if !pct(t, "noid", 25) {
 					it.ID = "b" + itoa(it.N)
 				}
 			}
